@@ -13,7 +13,8 @@ hl  <idx> <srv> <client> <puller> <kind> <comp> <chunk> <depth> <stream> <evs> <
 `stream` = `h:<hex>` | `p:<a>:<b>:<len>` (byte i = (a·i+b) mod 251) | `z:<len>` (content not known to the
 model: lengths only); for `raw` it is what the body (or the zstd encoder) wrote into the sink, for `hl`
 the logical bytes.  `evs` = `w<len>`/`f` list, `c<k>` (pieces of k), or `-`.  `end` = ok|err|vanish.
-`script` = `N` (next until terminal) | `n` | `c` (cancel, request) | `k` (cancel, notify) | `q` (a `next`
+`script` = `N` (next until terminal) | `n` | `c` (cancel, request) | `k` (cancel, notify) | `u` (next on a
+never-issued id) | `m` (malformed next body) | `j` (malformed cancel body) | `o` (open of an unknown resource) | `q` (a `next`
 parked on a gated producer + `cancel` from elsewhere while it is parked: prints `* ack`).
 `conc <idx> <srv> <chunk> <depth> <n> <rounds> <L>`: n clients open simultaneously, per round.
 `cnext <idx> <srv> <chunk> <depth> <k> <stream> <evs> <aux>`: k connections pull ONE stream concurrently.
@@ -106,6 +107,13 @@ def runScript (F : Facts) (known : Bool) (id fuel : Nat) : List String → Serve
       -- the parked request returns (`*`), the stream is released afterwards
       let (sv', _) := sv.next F id
       runScript F known id fuel ts (sv'.cancel id) ("ack" :: "*" :: acc)
+    | "u" =>
+      -- `next` for an id that was never issued (ids start at 1 in the model; 0 stands for any such id)
+      let (sv', r) := sv.next F 0
+      runScript F known id fuel ts sv' (showResp known r :: acc)
+    | "m" => runScript F known id fuel ts sv ("err" :: acc)     -- malformed `next` body: InvalidBody, table untouched
+    | "j" => runScript F known id fuel ts sv ("ack" :: acc)     -- malformed `cancel` body: acknowledged, releases nothing
+    | "o" => runScript F known id fuel ts sv ("noent" :: acc)   -- `open` of an unknown resource: no session
     | "c" => runScript F known id fuel ts (sv.cancel id) ("ack" :: acc)
     | "k" => runScript F known id fuel ts (sv.cancel id) ("-" :: acc)
     | _ => none
@@ -153,6 +161,11 @@ def standInDecompress (x : Bytes) : Bytes := x.drop 4
 
 def needsBeve : String → Option Bool
   | "vec" => some false
+  | "file" => some false       -- pull_to_file(_async): the committed file's content (commit protocol: C10)
+  | "call" => some false       -- pull_consume(_async) with a read-to-end consumer
+  | "cerr" => some false       -- … whose consumer reads everything and returns Err
+  | "cpart" => some false      -- … whose consumer reads 16 bytes and returns them
+  | "cpanic" => some false     -- … whose consumer panics after 16 bytes
   | "consume" => some false    -- pull_consume_async with a consumer that stalls (schedule only: same bytes)
   | "value" => some true
   | "typed" => some true
@@ -183,7 +196,11 @@ def hl (idx client puller kind comp chunk stream evs end_ : String) : String :=
         | none => idx ++ " err"
         | some bytes =>
           let logical := if comp = "1" then standInDecompress bytes else bytes
-          if puller = "vec" || puller = "consume" then
+          if puller = "cerr" || puller = "cpanic" then idx ++ " err"
+          else if puller = "cpart" then
+            let part := logical.take 16
+            joinSp ([idx, "ok", toString part.length] ++ (if known then [toString (fnv part).toNat] else []))
+          else if puller = "vec" || puller = "consume" || puller = "file" || puller = "call" then
             joinSp ([idx, "ok", toString logical.length] ++ (if known then [toString (fnv logical).toNat] else []))
           else idx ++ " ok"
   | _, _, _, _ => idx ++ " bad-op"
